@@ -368,3 +368,171 @@ Proof.
   - rewrite H in Hs. exact (proj1 (proj2 (readback_callable fl h n lg c l args Hf Hs H0 H1 H2 H3))).
   - rewrite H in Hs. exact (proj2 (proj2 (readback_callable fl h n lg c l args Hf Hs H0 H1 H2 H3))).
 Qed.
+
+(* ------------------------------------------------------------------ multi-stage projections *)
+(* an entry of an argument list is either omitted or THE argument of its position *)
+Definition entry_ok (e : option val) (a : val) : Prop := e = None \/ e = Some a.
+
+(* the arguments belonging to the slots still open, in order *)
+Fixpoint open_args (slots : list (option val)) (args : list val) : list val :=
+  match slots, args with
+  | None :: r, a :: as' => a :: open_args r as'
+  | Some _ :: r, _ :: as' => open_args r as'
+  | _, _ => []
+  end.
+
+(* every further list is written position by position against the slots still open *)
+Fixpoint chain_ok (slots : list (option val)) (args : list val) (stages : list (list (option val))) : Prop :=
+  match stages with
+  | [] => True
+  | st :: r => Forall2 entry_ok st (open_args slots args) /\ chain_ok (fill_stage slots st) args r
+  end.
+
+Lemma fill_stage_agrees : forall slots args, Forall2 entry_ok slots args ->
+  forall st, Forall2 entry_ok st (open_args slots args) -> Forall2 entry_ok (fill_stage slots st) args.
+Proof.
+  intros slots args H. induction H as [|s a slots args Hs H IH]; intros st Hst; cbn [fill_stage].
+  - constructor.
+  - destruct s as [v|]; cbn [open_args] in Hst.
+    + constructor; [exact Hs | apply IH; exact Hst].
+    + inversion Hst as [|e a' st' oa He Hst' E1 E2]; subst. constructor; [exact He | apply IH; exact Hst'].
+Qed.
+
+Lemma fold_agrees : forall stages slots args, Forall2 entry_ok slots args -> chain_ok slots args stages ->
+  Forall2 entry_ok (fold_left fill_stage stages slots) args.
+Proof.
+  induction stages as [|st stages IH]; intros slots args H Hc; cbn [fold_left]; [exact H|].
+  destruct Hc as [H1 H2]. apply IH; [apply fill_stage_agrees; assumption | exact H2].
+Qed.
+
+Lemma agrees_complete : forall slots args, Forall2 entry_ok slots args ->
+  forall vs, all_some slots = Some vs -> vs = args.
+Proof.
+  intros slots args H. induction H as [|s a slots args Hs H IH]; intros vs Hv; cbn in Hv.
+  - inversion Hv. reflexivity.
+  - destruct s as [v|]; [|discriminate]. destruct (all_some slots) as [ws|] eqn:E; [|discriminate].
+    inversion Hv; subst. destruct Hs as [Hs|Hs]; [discriminate|]. inversion Hs; subst. f_equal. apply IH. reflexivity.
+Qed.
+
+(* merge_projections assembles the arguments positionally, for any number of stages and any hole pattern *)
+Lemma merge_positional : forall s0 rest args vs,
+  Forall2 entry_ok s0 args -> chain_ok s0 args rest ->
+  all_some (merge (s0 :: rest)) = Some vs -> vs = args.
+Proof.
+  intros s0 rest args vs H Hc Hv. cbn [merge] in Hv.
+  exact (agrees_complete _ args (fold_agrees rest s0 args H Hc) vs Hv).
+Qed.
+
+Lemma staged_exact : forall fl st n c l s0 rest args vs,
+  args_positional fl = true -> NoDup l -> forallb xyz_name l = true -> sig_of c l ->
+  c_lookup (scx st) n = Some (EPy c) ->
+  Forall2 entry_ok s0 args -> chain_ok s0 args rest -> length args = length l ->
+  all_some (merge (s0 :: rest)) = Some vs ->
+  run_form fl st n (FStaged (s0 :: rest)) = applied st c args.
+Proof.
+  intros fl st n c l s0 rest args vs Hf Hnd Hall Hs Hn H0 Hc Hlen Hv.
+  cbn [run_form]. unfold apply_staged. rewrite Hv. rewrite (merge_positional s0 rest args vs H0 Hc Hv).
+  apply (apply_exact fl st n c l args Hf (all_sigs_complete l Hnd Hall) Hs Hlen Hn).
+Qed.
+
+(* Each over a projection with one open slot: one application per element, to the assembled arguments *)
+Lemma staged_each_exact : forall fl n c l stages (g : val -> list val) vs st,
+  args_positional fl = true -> NoDup l -> forallb xyz_name l = true -> sig_of c l ->
+  c_lookup (scx st) n = Some (EPy c) ->
+  (forall v, all_some (merge (stages ++ [[Some v]])) = Some (g v) /\ length (g v) = length l) ->
+  staged_each_loop fl st n stages vs =
+    (mkState (scx st) (log st ++ map (fun v => (pid c, g v)) vs), Some (map (fun v => VPyRes (pid c) (g v)) vs)).
+Proof.
+  intros fl n c l stages g vs. induction vs as [|v vs IH]; intros st Hf Hnd Hall Hs Hn Hg; cbn [staged_each_loop map].
+  - rewrite app_nil_r. destruct st; reflexivity.
+  - unfold apply_staged. destruct (Hg v) as [Hv Hl]. rewrite Hv.
+    rewrite (apply_exact fl st n c l (g v) Hf (all_sigs_complete l Hnd Hall) Hs Hl Hn). unfold applied.
+    rewrite (IH (mkState (scx st) (log st ++ [(pid c, g v)])) Hf Hnd Hall Hs Hn Hg). cbn.
+    rewrite <- app_assoc. reflexivity.
+Qed.
+
+(* ------------------------------------------------------------------ imported callables *)
+Definition plainp (p : iparam) : Prop :=
+  ip_kind p = KPosOrKw /\ ip_default p = false /\ ip_named_args p = false /\ pname_eqb (ip_name p) PKlong = false.
+Definition klongp (p : iparam) : Prop :=
+  ip_kind p = KPosOrKw /\ ip_default p = false /\ ip_named_args p = false /\ pname_eqb (ip_name p) PKlong = true.
+
+Definition is_varpos (p : iparam) : bool := match ip_kind p with KVarPos => true | _ => false end.
+Definition kwonly_required (p : iparam) : bool := match ip_kind p with KKwOnly => negb (ip_default p) | _ => false end.
+Definition is_klong (p : iparam) : bool := pname_eqb (ip_name p) PKlong.
+
+Lemma plain_facts : forall ps, Forall plainp ps ->
+  filter is_required ps = ps /\ filter pos_capable ps = ps /\ existsb ip_named_args ps = false /\
+  existsb is_klong ps = false /\ existsb is_optional ps = false /\ existsb kwonly_required ps = false.
+Proof.
+  induction ps as [|p ps IH]; intro H; [cbn; repeat split; reflexivity|].
+  inversion H as [|? ? [Hk [Hd [Hn Hkl]]] Hps]; subst. destruct (IH Hps) as [I1 [I2 [I3 [I4 [I5 I6]]]]].
+  cbn. unfold is_required, pos_capable, is_optional, kwonly_required, is_klong. rewrite Hk, Hd, Hn, Hkl. cbn.
+  fold is_klong. unfold is_required, pos_capable, is_optional, kwonly_required in *.
+  rewrite I1, I2, I3, I4, I5, I6. repeat split; reflexivity.
+Qed.
+
+Lemma pos_from_frame : forall args outer, (length args <= 3)%nat ->
+  get_pos_args (zip_frame xyz args :: outer) (firstn (length args) xyz) = Some args.
+Proof.
+  intros args outer H. destruct args as [|a [|b [|c [|d r]]]]; cbn in H; try lia; cbn; reflexivity.
+Qed.
+
+Definition item_applied (st : state) (it : item) (args : list val) : state * res :=
+  (mkState (scx st) (log st ++ [(iid it, args)]), RVal (VPyRes (iid it) args)).
+
+(* a module function with r <= 3 plain positional parameters, decorated with functools.wraps or not *)
+Lemma import_exact_plain : forall follow it ps,
+  (follow = true \/ idecorated it = false) -> ireal it = ps -> Forall plainp ps -> (length ps <= 3)%nat ->
+  register follow it = Some (ELam it (length ps) false false) /\
+  forall fl st n args, c_lookup (scx st) n = Some (ELam it (length ps) false false) -> length args = length ps ->
+    apply_name fl st n args = item_applied st it args.
+Proof.
+  intros follow it ps Hfd Hr Hp Hlen. destruct (plain_facts ps Hp) as [F1 [F2 [F3 [F4 [F5 F6]]]]].
+  assert (Hi : inspect_sig follow it = ps).
+  { unfold inspect_sig. destruct Hfd as [-> | ->]; [rewrite andb_false_r | cbn]; exact Hr. }
+  split.
+  - unfold register. rewrite Hi.
+    rewrite (import_lambda ps F3); rewrite ?F1; auto.
+  - intros fl st n args Hn Hl. unfold apply_name. rewrite Hn. unfold call_item.
+    rewrite <- Hl. rewrite (pos_from_frame args (scx st)) by lia.
+    unfold accepts. rewrite Hr, F1, F2. fold kwonly_required. rewrite F6. rewrite Hl, Nat.leb_refl. cbn. reflexivity.
+Qed.
+
+(* ... and with a leading klong parameter *)
+Lemma import_exact_klong : forall follow it kp ps,
+  (follow = true \/ idecorated it = false) -> ireal it = kp :: ps -> klongp kp -> Forall plainp ps -> (length ps <= 3)%nat ->
+  register follow it = Some (ELam it (length ps) true false) /\
+  forall fl st n args, c_lookup (scx st) n = Some (ELam it (length ps) true false) -> length args = length ps ->
+    apply_name fl st n args = item_applied st it args.
+Proof.
+  intros follow it kp ps Hfd Hr [Kk [Kd [Kn Kkl]]] Hp Hlen. destruct (plain_facts ps Hp) as [F1 [F2 [F3 [F4 [F5 F6]]]]].
+  assert (Hi : inspect_sig follow it = kp :: ps).
+  { unfold inspect_sig. destruct Hfd as [-> | ->]; [rewrite andb_false_r | cbn]; exact Hr. }
+  assert (Hreq : filter is_required (kp :: ps) = kp :: ps).
+  { cbn. unfold is_required at 1. rewrite Kk, Kd. cbn. rewrite F1. reflexivity. }
+  assert (Hcap : filter pos_capable (kp :: ps) = kp :: ps).
+  { cbn. unfold pos_capable at 1. rewrite Kk. rewrite F2. reflexivity. }
+  split.
+  - unfold register. rewrite Hi.
+    assert (Hh : handle_import (kp :: ps) = ILambda (length (filter is_required (kp :: ps)) - 1) true).
+    { apply import_lambda_klong.
+      - cbn. rewrite Kn, F3. reflexivity.
+      - rewrite Hreq. cbn. rewrite Kkl. reflexivity.
+      - rewrite Hreq. cbn. lia. }
+    rewrite Hh, Hreq. cbn [length]. replace (S (length ps) - 1)%nat with (length ps) by lia. reflexivity.
+  - intros fl st n args Hn Hl. unfold apply_name. rewrite Hn. unfold call_item.
+    rewrite <- Hl. rewrite (pos_from_frame args (scx st)) by lia.
+    unfold accepts. rewrite Hr, Hreq, Hcap. cbn [existsb]. rewrite Kk.
+    change (existsb (fun p : iparam => match ip_kind p with KKwOnly => negb (ip_default p) | _ => false end) ps)
+      with (existsb kwonly_required ps).
+    rewrite F6. cbn [length]. rewrite Hl, Nat.leb_refl. cbn. reflexivity.
+Qed.
+
+(* what wildcard mode reads: at top level (no x, y, z visible outside the call frame) exactly the arguments *)
+Lemma wild_toplevel : forall args outer, (length args <= 3)%nat ->
+  c_lookup outer 0 = None -> c_lookup outer 1 = None -> c_lookup outer 2 = None ->
+  get_pos_wild (zip_frame xyz args :: outer) xyz = args.
+Proof.
+  intros args outer H H0 H1 H2. destruct args as [|a [|b [|c [|d r]]]]; cbn in H; try lia; cbn; rewrite ?H0, ?H1, ?H2; reflexivity.
+Qed.
